@@ -102,6 +102,54 @@ pub fn multibyte(out: &mut Vec<String>) {
     }
 }
 
+/// History inside one stream: several attributes in one message whose name (and value) lengths rise, fall or repeat
+/// across the sizes at which a reader that reused or grew a scratch buffer would change behaviour.
+pub fn length_sequences(out: &mut Vec<String>) {
+    const SIZES: [usize; 20] = [0, 1, 63, 64, 65, 255, 256, 257, 300, 400, 511, 512, 513, 1000, 1024, 1025, 2047, 2049, 4095, 4097];
+    let attr = |m: &mut Vec<u8>, nl: usize, vl: usize, i: usize| {
+        m.push(0x41);
+        m.extend_from_slice(&(nl as u16).to_be_bytes());
+        m.extend(std::iter::repeat(b'a' + (i % 26) as u8).take(nl));
+        m.extend_from_slice(&(vl as u16).to_be_bytes());
+        m.extend(std::iter::repeat(b'0' + (i % 10) as u8).take(vl));
+    };
+    // every ordered pair of sizes as (first name, second name), and the same for values
+    for (i, a) in SIZES.iter().enumerate() {
+        for (j, b) in SIZES.iter().enumerate() {
+            let _ = (i, j);
+            let mut m = vec![1u8];
+            attr(&mut m, (*a).max(1), 2, 0);
+            attr(&mut m, (*b).max(1), 2, 1);
+            m.push(3);
+            out.push(with_header(&m));
+            let mut m = vec![1u8];
+            attr(&mut m, 1, *a, 0);
+            attr(&mut m, 2, *b, 1);
+            m.push(3);
+            out.push(with_header(&m));
+        }
+    }
+    // longer runs: rising, falling, rising by one, alternating
+    let runs: [&[usize]; 6] = [
+        &[200, 300, 400, 500, 600, 700], &[700, 600, 500, 400, 300, 200], &[255, 256, 257, 258, 259], &[4095, 4096, 4097],
+        &[300, 10, 400, 10, 500, 10, 8192, 10, 8193], &[256, 512, 1024, 2048, 4096, 8192, 16384],
+    ];
+    for run in runs {
+        let mut m = vec![1u8];
+        for (i, n) in run.iter().enumerate() {
+            attr(&mut m, *n, 3, i);
+        }
+        m.push(3);
+        out.push(with_header(&m));
+        let mut m = vec![1u8];
+        for (i, n) in run.iter().enumerate() {
+            attr(&mut m, 1 + i, *n, i);
+        }
+        m.push(3);
+        out.push(with_header(&m));
+    }
+}
+
 pub fn inflating(out: &mut Vec<String>) {
     for n in [21840usize, 21846, 32768, 65535] {
         for tag in [0x30u8, 0x41, 0x42, 0x44, 0x45, 0x46, 0x47, 0x48, 0x49, 0x4a, 0x2f] {
